@@ -286,6 +286,8 @@ def any_profile(reopen_ok=False, weights=None, with_manydirs=False):
         table['linktwins'] = linktwins(reopen_ok=reopen_ok)
     if 'udflinks' in w:
         table['udflinks'] = udflinks(reopen_ok=reopen_ok)
+    if 'fullcat' in w:
+        table['fullcat'] = fullcat(reopen_ok=reopen_ok)
     if 'readd' in w:
         table['readd'] = readd(reopen_ok=reopen_ok)
     if 'symcomps' in w:
@@ -469,6 +471,24 @@ def udflinks(cfg=None, reopen_ok=True):
     if reopen_ok:
         tail = st.lists(st.one_of(rm_link, rm_file, add_fp(length=SMALL_LEN), write, reopen), min_size=0, max_size=3)
     return program(c, st.builds(build, st.lists(F, min_size=1, max_size=3), st.lists(add_link, min_size=3, max_size=3), st.one_of(*mids), E, tail))
+
+
+def fullcat(cfg=None, reopen_ok=False):
+    """A boot catalogue that is exactly full (initial entry + 31 sections fill its sector to the last byte) or one entry short
+    of it, on boot files of arbitrary content (so that what follows the catalogue on the image does not look like padding)."""
+    c = cfg if cfg is not None else cfg_st()
+    BF = add_fp(length=st.sampled_from([2048, 3000, 5000]), ck=st.just(0), ns=st.sampled_from([7, 1, 3]), d=st.just(0), file=st.just(False))
+
+    def build(bfs, boots, n, tail):
+        ops = list(bfs)
+        for k in range(n):
+            ops.append(dict(boots[k % len(boots)], b=k % len(bfs), j=0, media=0, load=[None, 4, 1][k % 3], salt=(boots[k % len(boots)].get('salt', 0) + k) % 1000))
+        return ops + [{'k': 'write'}] + tail
+    tail_choices = [add_fp(length=SMALL_LEN), rm_boot, write, query, add_dir(d=st.just(0))]
+    if reopen_ok:
+        tail_choices += [reopen, reopen]
+    return program(c, st.builds(build, st.lists(BF, min_size=1, max_size=3), st.lists(add_boot, min_size=4, max_size=4), st.sampled_from([32, 32, 31, 33]),
+                                st.lists(st.one_of(*tail_choices), min_size=0, max_size=4)))
 
 
 def biglinks(cfg=None, reopen_ok=True):
